@@ -29,7 +29,9 @@ def gen(args):
         dim = int(rng.integers(1, 7))
         nx, ny = int(rng.integers(1, 6)), int(rng.integers(1, 6))
         s = [1, 2, 4][int(rng.integers(3))]          # coordinates are lattice / s (dyadic, exact)
-        kind = ["cell", "cell", "free", "half", "images", "aniso", "maha", "maha", "baddim"][int(rng.integers(9))]
+        kind = ["cell", "cell", "free", "half", "images", "aniso", "maha", "maha", "baddim", "maha-near"][int(rng.integers(10))]
+        if kind == "maha-near":
+            dim, nx, ny, s = int(rng.integers(1, 3)), int(rng.integers(1, 5)), int(rng.integers(1, 5)), int(rng.choice([1, 2]))
         cell = rng.integers(1, 13, size=dim)
         if kind == "aniso":
             cell = np.where(rng.random(dim) < 0.5, 1, rng.integers(20, 41, size=dim))
@@ -49,7 +51,7 @@ def gen(args):
             Y = X[rng.integers(0, nx, size=ny)] + cell * rng.integers(-5, 6, size=(ny, dim))
         c = {"id": "w%d-%d" % (wid, t), "kind": kind, "dim": dim, "X": X.tolist(), "Y": Y.tolist(),
              "cell": [] if cellarg is None else [int(v) for v in cell], "sq": [], "sqT": [], "dq": [], "maha": [], "L": [],
-             "raised": False, "scale": s}
+             "raised": False, "scale": s, "lmul": []}
         Xf, Yf = X / s, Y / s
         try:
             if kind == "baddim":
@@ -59,6 +61,21 @@ def gen(args):
                     periodic_pairwise_euclidean_distances(Xf, Yf, cell_length=bad)
                 else:
                     pairwise_mahalanobis_distances(Xf, Yf, np.eye(dim), cell_length=bad)
+            elif kind == "maha-near":
+                # a stack whose members agree to a few 1e-6 (relative) but are NOT equal: the same L L^T times dyadic factors
+                X = rng.integers(-3, 4, size=(nx, dim)); Y = rng.integers(-3, 4, size=(ny, dim))
+                c["X"], c["Y"] = X.tolist(), Y.tolist(); Xf, Yf = X / s, Y / s
+                if rng.random() < 0.5:
+                    cellarg, c["cell"] = None, []
+                else:
+                    cell = rng.integers(2, 7, size=dim); cellarg = cell / s; c["cell"] = [int(v) for v in cell]
+                L = rng.integers(-2, 3, size=(dim, dim))
+                ks = [int(v) for v in rng.permutation([0, 1, 3, 4])[: int(rng.integers(2, 4))]]
+                prec = np.array([(L @ L.T) * (1.0 + k / 2.0 ** 17) for k in ks])
+                d2 = pairwise_mahalanobis_distances(Xf, Yf, prec, cell_length=cellarg, squared=True)
+                c["L"] = [L.tolist() for _ in ks]
+                c["lmul"] = [2 ** 17 + k for k in ks]
+                c["maha"] = [snap(m, s * s * 2 ** 17) for m in d2]
             elif kind == "maha":
                 if rng.random() < 0.4:
                     cellarg, c["cell"] = None, []
@@ -92,7 +109,7 @@ def gen(args):
 
 
 def strip(c):
-    return {k: c[k] for k in ("id", "kind", "dim", "X", "Y", "cell", "sq", "sqT", "dq", "maha", "L", "raised")}
+    return {k: c[k] for k in ("id", "kind", "dim", "X", "Y", "cell", "sq", "sqT", "dq", "maha", "L", "raised", "lmul")}
 
 
 def run(tier):
